@@ -1798,8 +1798,8 @@ def _takeslice(__array: IntoArray, __s: slice, __axis: int) -> Array:
     axis = __axis
     n = array.shape[axis]
     if s.step == None or s.step == 1:
-        start = 0 if s.start is None else s.start if s.start >= 0 else s.start + n
-        stop = n if s.stop is None else s.stop if s.stop >= 0 else s.stop + n
+        start, stop, _ = s.indices(n)
+        stop = max(start, stop)
         if start == 0 and stop == n:
             return array
         length = stop - start
